@@ -1,5 +1,6 @@
 import Driver.Util
 import Torf.Spec.Reuse
+import Torf.Model.ReuseSearch
 open Lean Torf Torf.Reuse
 namespace Driver.C18
 
@@ -61,10 +62,11 @@ def torJson (t : Tor) : Json :=
 
 def plain (s : String) : Bool := s != "" && s != "." && s != ".." && !s.contains '/'
 
-/-- hypothesis of the theorems / of model = spec: well-formed layouts on both sides (non-empty
-    files, pairwise distinct joined paths, multi-file entries have at least one component) -/
+/-- hypothesis of the theorems / of model = spec: well-formed layouts on both sides (a non-empty
+    single file; zero-length entries only in multi-file lists; pairwise distinct joined paths,
+    multi-file entries have at least one component) -/
 def wfLayout (name : String) (single : Bool) (files : List FileEnt) : Bool :=
-  files.all (fun f => f.size != 0) && !files.isEmpty &&
+  (!single || files.all (fun f => f.size != 0)) && !files.isEmpty &&
   (files.map (joined name)).eraseDups.length == files.length &&
   (if single then files.length == 1 && files.all (fun f => f.path.isEmpty)
    else files.all (fun f => !f.path.isEmpty && f.path.all (· != "")))
@@ -112,9 +114,109 @@ def reuseOp (j : Json) : Except String Json := do
                ("total", jnat (total items)),
                ("hyp", jbool hyp)]
 
+/-! ### search over an abstract file system -/
+
+def parseNode (j : Json) : Except String Node := do
+  let k ← getStr j "k"
+  match k with
+  | "f" => return .file (← getNat j "size") (← getBool j "r") (← getNat j "c")
+  | "d" =>
+    let es ← (← getArr j "e").mapM fun e => do
+      let a ← e.getArr?
+      let n ← (a[0]!).getStr?
+      let i ← (a[1]!).getNat?
+      pure (n, i)
+    return .dir (← getBool j "r") (← getBool j "x") es
+  | "l" => return .link (Torf.Paths.parse (← getStr j "t"))
+  | _ => throw s!"unknown node kind {k}"
+
+/-- well-formed inode table: the root is a directory; entries have plain, pairwise distinct names
+    and point into the table -/
+def wfFS (fs : FS) : Bool :=
+  (match fs[0]? with | some (Node.dir ..) => true | _ => false) &&
+  fs.all fun (n : Node) => match n with
+    | .dir _ _ es => es.all (fun e => plain e.1 && decide (e.2 < fs.length)) &&
+        (es.map (·.1)).eraseDups.length == es.length
+    | .link t => !(t.comps.isEmpty) && (t.abs || t.comps.headD "" != "")
+    | _ => true
+
+def foundPath : Found → Option String
+  | .tfile p _ => some (Torf.Paths.strOf p)
+  | _ => none
+
+def foundJson (w : World) : Found → Json
+  | .pathError p => jobj [("kind", jstr "pathError"), ("path", Json.null), ("errpath", jstr (Torf.Paths.strOf p))]
+  | .tfile p ok =>
+    let (cid, readable) : Nat × Bool := match resolve w p with
+      | .ok (.file ino) => (match w.fs[ino]? with
+        | some (.file _ r c) => (c, r)
+        | _ => (0, false))
+      | _ => (0, false)
+    jobj [("kind", jstr "file"), ("path", jstr (Torf.Paths.strOf p)), ("statOk", jbool ok),
+          ("cid", jnat cid), ("readable", jbool readable)]
+  | .overflow => jobj [("kind", jstr "overflow"), ("path", Json.null)]
+
+def pathCallJson (paths : Array (Option String)) (c : Call) : Json :=
+  jarr [jopt jstr (paths.getD c.item none), jnat c.done, jnat c.total, matchJson c.isMatch, jopt errJson c.exc]
+
+/-- op `c18.reusePaths` : {t, fs : inode table, cwd, paths : spellings, contents : item per content id,
+    cb : null | [[path | null, isMatch]…] (calls that cancel), elapsed, fuel, maxSize}
+    ↦ what the model's search yields (spellings), the model's result / torrent / callback trace,
+    the spec's verdicts per yielded item, mustFind, hyp -/
+def reusePathsOp (j : Json) : Except String Json := do
+  let tj ← j.getObjVal? "t"
+  let pieces : Option (List Digest) := (getStrs tj "pieces").toOption
+  let t : Tor := ⟨← getStr tj "name", ← getBool tj "single", ← (← getArr tj "files").mapM parseFile,
+                  ← getNat tj "pl", pieces, ← getNat tj "plMin", ← getNat tj "plMax"⟩
+  let fs ← (← getArr j "fs").mapM parseNode
+  let contents := (← (← getArr j "contents").mapM parseItem).toArray
+  let content : Nat → ReadOutcome × (Nat → LocalPiece) := fun i =>
+    match contents.getD i .pathError with
+    | .file r loc => (r, loc)
+    | .pathError => (.unreadable, fun _ => .missing)
+  let w0 : World := ⟨fs, [], ← getNat j "maxSize", content⟩
+  let cwdStack ← match resolve w0 (Torf.Paths.parse (← getStr j "cwd")) with
+    | .ok (.dir st) => pure st
+    | _ => throw "cwd does not resolve to a directory of the table"
+  let w : World := { w0 with cwd := cwdStack }
+  let paths := (← getStrs j "paths").map Torf.Paths.parse
+  let fuel ← getNat j "fuel"
+  let elapsed ← getBool j "elapsed"
+  let found := searchFound w fuel paths
+  let overflow := found.contains .overflow
+  let shown := found.filter (· != .overflow)
+  let items := searchItems w fuel paths
+  let ipaths := (shown.map foundPath).toArray
+  let cbj ← j.getObjVal? "cb"
+  let cb : Callback ← match cbj with
+    | Json.null => pure none
+    | _ => do
+      let stops ← (← getArr j "cb").mapM fun s => do
+        let a ← s.getArr?
+        let p : Option String := (a[0]!).getStr?.toOption
+        let m : Option Bool := match a[1]! with
+          | Json.bool b => some b
+          | _ => none
+        pure (p, m)
+      pure (some fun c => stops.contains (ipaths.getD c.item none, c.isMatch))
+  let r := reusePaths t w fuel paths cb elapsed
+  let hyp := wfFS fs && !overflow && wfLayout t.name t.single t.files &&
+    items.all fun it => match it with
+      | .file (.torrent c) _ => wfLayout c.name c.single c.files
+      | _ => true
+  return jobj [("model", jobj [("res", resJson r.1), ("after", torJson r.2.1),
+                               ("calls", jarr (r.2.2.map (pathCallJson ipaths)))]),
+               ("found", jarr (shown.map (foundJson w))),
+               ("items", jarr (items.map (itemInfo t))),
+               ("mustFind", jbool (mustFind t cb.isSome items)),
+               ("total", jnat (total items)),
+               ("overflow", jbool overflow),
+               ("hyp", jbool hyp)]
+
 def handle (op : String) (j : Json) : Except String Json :=
   match op with
   | "c18.reuse" => reuseOp j
+  | "c18.reusePaths" => reusePathsOp j
   | _ => throw s!"unknown op {op}"
 
 end Driver.C18
